@@ -12,11 +12,9 @@ import (
 	"errors"
 	"fmt"
 	"math/rand"
-	"strings"
 	"testing"
 
 	"github.com/prometheus/client_golang/prometheus"
-	dto "github.com/prometheus/client_model/go"
 
 	"github.com/Trendyol/go-dcp/couchbase"
 	"github.com/Trendyol/go-dcp/models"
@@ -78,26 +76,24 @@ type vfDisc struct {
 func (d *vfDisc) GetMetric() *stream.VBucketDiscoveryMetric { return &d.m }
 
 func scrape(t *testing.T, c prometheus.Collector) map[string]float64 {
-	ch := make(chan prometheus.Metric, 4096)
-	c.Collect(ch)
-	close(ch)
+	reg := prometheus.NewPedanticRegistry()
+	if err := reg.Register(c); err != nil {
+		t.Fatalf("register: %v", err)
+	}
+	mfs, _ := reg.Gather() // an error here is the invalid lag metric of the failing-query scenario
 	out := map[string]float64{}
-	for m := range ch {
-		var d dto.Metric
-		if err := m.Write(&d); err != nil {
-			continue // an invalid metric (lag while the seqno query fails)
-		}
-		name := m.Desc().String()
-		name = name[strings.Index(name, "fqName: \"")+9:]
-		name = name[:strings.Index(name, "\"")]
-		for _, l := range d.Label {
-			name += "{" + l.GetName() + "=" + l.GetValue() + "}"
-		}
-		switch {
-		case d.Gauge != nil:
-			out[name] = d.Gauge.GetValue()
-		case d.Counter != nil:
-			out[name] = d.Counter.GetValue()
+	for _, mf := range mfs {
+		for _, m := range mf.GetMetric() {
+			name := mf.GetName()
+			for _, l := range m.GetLabel() {
+				name += "{" + l.GetName() + "=" + l.GetValue() + "}"
+			}
+			switch {
+			case m.GetGauge() != nil:
+				out[name] = m.GetGauge().GetValue()
+			case m.GetCounter() != nil:
+				out[name] = m.GetCounter().GetValue()
+			}
 		}
 	}
 	return out
